@@ -1,4 +1,5 @@
 import Proofs.Codec
+import Proofs.Reopen
 /-! C11 — close/reopen preserves everything; clear empties everything. The files *are* the state:
     decoding the two images returns the block arrays; both images are whole numbers of blocks; the
     model's `reopen` touches nothing but the RAM rules; `clear d rs` is literally a fresh index. -/
@@ -32,6 +33,14 @@ theorem C11_reopen_idempotent (s : State) (d : Rule) (rs : List (Bytes × Rule))
     (up to the ghost write log, which continues) -/
 theorem C11_clear_is_fresh (s : State) (d : Rule) (rs : List (Bytes × Rule)) :
     s.clear (some d) (some rs) = State.fresh s.cfg d rs s.log := rfl
+
+/-- closing and reopening with the same rules re-supplied gives back the very same index state; hence a
+    history with reopen requests inserted at any positions, any number of times, evolves exactly as the
+    history without them -/
+theorem C11_reopen_same (s : State) (h : (s.rules.map (·.1)).Nodup) : s.reopen s.dflt s.rules = s := reopen_same s h
+
+theorem C11_reopen_anywhere (s : State) (h : (s.rules.map (·.1)).Nodup) (ops : List Op) :
+    (s.reopen s.dflt s.rules).run ops = s.run ops := by rw [reopen_same s h]
 
 example : (({} : State).reopen .domain []).trie.size = 1 := by decide
 
